@@ -22,6 +22,10 @@ CMP_FP = ["ldb_find_file.function_pointer_call.1/ldb_ikc_compare",
           "ldb_ikc_compare.function_pointer_call.1/slice_compare"]
 
 
+OVL_FP = CMP_FP + []
+GOI_FP = []
+
+
 def _levels(t):
     return dict(("VP_N%d" % i, n) for i, n in enumerate(t) if n)
 
@@ -41,6 +45,41 @@ def overlap_obls(prefix):
                        functions=["ldb_find_file", "ldb_ikc_compare"],
                        desc="find_file == first file whose largest internal key >= target (linear reference), sorted/disjoint level",
                        bounds="%d files, 1-byte user keys, sequences 0..7, both types" % n))
+    # some_file_overlaps_range / overlap_in_level: level 0 (scan) and level 1 (binary search)
+    for lv, n, tier in ((0, 1, "quick"), (0, 2, "quick"), (0, 3, "thorough"), (1, 0, "quick"), (1, 1, "quick"), (1, 2, "quick"),
+                        (1, 3, "quick"), (1, 4, "thorough")):
+        out.append(Obl("%s.overlaps-range-L%d-N%d" % (prefix, lv, n), "vset/overlap.c", real=VER_REAL, include_real=INC, kit=KIT,
+                       defs={"VP_MODE": 1, "VP_LV": lv, "VP_N%d" % lv: n}, unwind=9,
+                       unwindset={"memcmp.0": 3, "memcpy.0": 3, "ldb_find_file.0": 4, "ldb_realloc.0": 10},
+                       restrict_fp=OVL_FP, tier=tier, timeout=300,
+                       functions=["ldb_some_file_overlaps_range", "ldb_version_overlap_in_level", "after_file", "before_file",
+                                  "ldb_find_file", "ldb_ikey_set"],
+                       desc="some_file_overlaps_range (%s mode) and ldb_version_overlap_in_level == brute force over the files; range ends independently open"
+                            % ("disjoint-sorted" if lv else "level-0 scan"),
+                       bounds="%d files in level %d, 1-byte user keys, sequences 0..7" % (n, lv)))
+    # get_overlapping_inputs: level 0 (closure with restart) and level 2
+    for lv, n, tier in ((0, 1, "quick"), (0, 2, "quick"), (0, 3, "quick"), (2, 1, "quick"), (2, 2, "quick"), (2, 3, "quick")):
+        out.append(Obl("%s.overlapping-inputs-L%d-N%d" % (prefix, lv, n), "vset/overlap.c", real=VER_REAL, include_real=INC, kit=KIT,
+                       defs={"VP_MODE": 3, "VP_LV": lv, "VP_N%d" % lv: n, "VP_ALLOC_TRACK": 6}, unwind=9,
+                       unwindset={"memcmp.0": 3, "vp_realloc_ptrs.0": 9, "vp_realloc_ptrs.1": 9, "vp_realloc_ptrs.2": 9,
+                                  "ldb_version_get_overlapping_inputs.0": (n * (n + 1) + 2) if lv == 0 else n + 1},
+                       restrict_fp=GOI_FP, tier=tier, timeout=300,
+                       functions=["ldb_version_get_overlapping_inputs"],
+                       desc="ldb_version_get_overlapping_inputs: level >= 1 exactly the files meeting the user-key range in order; level 0 the overlap closure",
+                       bounds="%d files in level %d, begin/end independently NULL, 1-byte user keys" % (n, lv)))
+    # pick_level_for_memtable_output
+    for t, tier in (((1, 1, 1, 1), "quick"), ((2, 1, 0, 1), "quick"), ((0, 2, 1, 0), "quick"), ((1, 0, 2, 1), "quick"),
+                    ((0, 1, 1, 2), "quick"), ((0, 0, 0, 0), "quick"), ((2, 2, 2, 2), "thorough"), ((1, 2, 2, 2), "thorough")):
+        out.append(Obl("%s.pick-level-%s" % (prefix, _lname(t)), "vset/overlap.c", real=VER_REAL, include_real=INC, kit=KIT,
+                       defs=dict(_levels(t), VP_MODE=2, VP_ALLOC_TRACK=6), unwind=9,
+                       unwindset={"memcmp.0": 3, "memcpy.0": 3, "ldb_find_file.0": 4, "ldb_realloc.0": 10,
+                                  "vp_realloc_ptrs.0": 9, "vp_realloc_ptrs.1": 9, "vp_realloc_ptrs.2": 9},
+                       restrict_fp=OVL_FP + GOI_FP, tier=tier, timeout=400,
+                       functions=["ldb_version_pick_level_for_memtable_output", "ldb_version_overlap_in_level",
+                                  "ldb_some_file_overlaps_range", "ldb_version_get_overlapping_inputs", "total_file_size",
+                                  "max_grandparent_overlap_bytes"],
+                       desc="flush placement: level <= 2, no overlap in levels 0..L, grandparent bytes <= 10*max_file_size on the way, == rule",
+                       bounds="files per level 0..3 = %s, sizes 0..4000, max_file_size 100, 1-byte user keys" % (t,)))
     return out
 
 
